@@ -73,6 +73,11 @@ CHECKS.update({
    text="All sequences up to the depth bound of CCRs (4 actions x request types x 11 boundary amounts up to 2^63-1 x 3 accounts + unknown subscriber + unknown rating group) from small and near-2^63 initial balances are sent over a real Diameter connection to the server started by abmf.OpenServer; stored balances, grant, final-unit indication and the echoed Session-Id/type/number are compared with a reference model after every request; absence of an answer is decided at quiescence.",
    ref="6 C07", note=TB_E1),
 })
+CHECKS.update({
+ "C08": dict(engine=E2, technique="exhaustive enumeration of (stored unit-cost string x request sub-type x boundary value) against the real rating server over real go-diameter state machines on the modelled network; answer presence decided at quiescence",
+   text="Every unit-cost string of the alphabet (integers incl. 0 and 2^32-1, decimals, malformed text) x 4 sub-types x boundary consumed/quota values is sent over a real Diameter connection to the server started by rf.OpenServer; price / allowed units must be exact, the tariff must decode at the CHF (getUnitCost arithmetic) to the unit cost applied, every request must be answered and another subscriber must still be served afterwards.",
+   ref="6 C08", note=TB_E1),
+})
 NA_REASON = "check under construction (see DESIGN.md section 6)"
 
 m = {"version": 1, "setup_cmd": "./setup.sh",
